@@ -104,6 +104,7 @@ class Impl:
         self.orig_timer = self.ps._timer
         self.orig_cpu_count = self.plat.cpu_count_logical
         self.workers = []
+        self.reads_by_thread = {}
         self.vlen = None
         self.host_fields = tuple(self.plat.scputimes._fields)
 
@@ -127,6 +128,9 @@ class Impl:
         return self.workers[i]
 
     def _open_binary(self, path, *a, **kw):
+        if path == self.statpath:
+            t = threading.get_ident()
+            self.reads_by_thread[t] = self.reads_by_thread.get(t, 0) + 1
         if path == self.statpath and self.feed is not None:
             data = self.feed[min(self.feed_i, len(self.feed) - 1)] if self.feed else b""
             self.feed_i += 1
@@ -291,6 +295,11 @@ def stat_max_ticks(reads_hex):
             if tok.isdigit():
                 m = max(m, int(tok))
     return m
+
+
+def one_decimal(x):
+    """is the double the nearest double of some k/10 ?"""
+    return float(round(x * 10)) / 10 == x or abs(x * 10 - round(x * 10)) <= 1e-9 * max(1.0, abs(x))
 
 
 def clamp100(q):
@@ -697,6 +706,8 @@ def compare_call(res, cmp, hist, idx, op, im, m, nf, tp_max_one, findings_on):
             return dis("spec", "non-finite result")
         if not (0.0 <= x <= 100.0):
             return dis("spec", "value %r outside [0, 100]" % x)
+        if not one_decimal(x):
+            return dis("spec", "value %r is not rounded to one decimal" % x)
         col = None
         if is_tp:
             w = width if width is not None else shape[1][0] if shape[1] else 0
@@ -754,7 +765,7 @@ def compare_call(res, cmp, hist, idx, op, im, m, nf, tp_max_one, findings_on):
     return "ok"
 
 
-def run_histories(ctx, impl, res, hists, cmp, findings_on=True):
+def run_histories(ctx, impl, res, hists, cmp, findings_on=True, impl_results=None):
     """Execute call histories on impl and model; return list of verdict per history."""
     lines = []
     for h in hists:
@@ -766,9 +777,10 @@ def run_histories(ctx, impl, res, hists, cmp, findings_on=True):
     i = 0
     for h in hists:
         i += 1
-        if impl.vlen != h["vlen"]:
-            impl.prime(h["vlen"])
-        impl.reset_last()
+        if impl_results is None:
+            if impl.vlen != h["vlen"]:
+                impl.prime(h["vlen"])
+            impl.reset_last()
         nf = min(max(h["vlen"], 7), 10)
         v = "ok"
         for idx, op in enumerate(h["ops"]):
@@ -778,10 +790,74 @@ def run_histories(ctx, impl, res, hists, cmp, findings_on=True):
                 raise RuntimeError("driver rejected %r: %s" % (op, m))
             if v != "ok":
                 continue
-            im = impl.call(op)
+            im = impl.call(op) if impl_results is None else impl_results[idx]
             v = compare_call(res, cmp, h, idx, op, im, m, nf, tp_max_one, findings_on)
         verdicts.append(v)
     return verdicts, len(lines)
+
+
+def concurrent_runs(ctx, impl, res, cmp, runs):
+    """Really concurrent callers: in each phase the file is fixed and all participating threads
+    call the same front end at once (released together by a barrier). Each thread's result must be
+    the model's result for that thread — the model being run serially, phase by phase, in ANY order of
+    the threads inside a phase (thread independence makes the order irrelevant)."""
+    done = 0
+    for _ in range(runs):
+        rng = ctx.rng
+        vlen = rng.choice([7, 8, 9, 10])
+        nf = vlen
+        nthreads = rng.choice([2, 3, 4])
+        nphases = rng.randrange(3, 7)
+        fn = rng.choice(["percent", "times_percent"])
+        percpu = rng.random() < 0.4
+        cur = [[rng.randrange(0, 1000) for _ in range(10)] for _ in range(rng.choice([1, 2, 4]))]
+        impl.prime(vlen)
+        impl.reset_last()
+        impl.feed = None
+        ops, results = [], []
+        for ph in range(nphases):
+            cur = evolve(rng, cur, rng.choice(["mixed", "subsecond", "big", "decreasing"]), impl.tck)
+            data = render_snapshot(10, cur)
+            with open(impl.statpath, "wb") as f:
+                f.write(data)
+            part = [t for t in range(1, nthreads + 1) if rng.random() < 0.7] or [1]
+            barrier = threading.Barrier(len(part))
+            boxes = {}
+
+            def work(t, barrier=barrier):
+                ident = threading.get_ident()
+                impl.reads_by_thread[ident] = 0
+                f_ = impl.ps.cpu_percent if fn == "percent" else impl.ps.cpu_times_percent
+                barrier.wait(30)
+                try:
+                    r = f_(interval=None, percpu=percpu)
+                    if percpu:
+                        val = {"k": "nums", "v": [float(x) for x in r]} if fn == "percent" else \
+                            {"k": "tups", "v": [[float(x) for x in tt] for tt in r]}
+                    else:
+                        val = {"k": "num", "v": float(r)} if fn == "percent" else {"k": "tup", "v": [float(x) for x in r]}
+                    return {"kind": "ok", "nreads": impl.reads_by_thread[ident], "val": val, "slept": 0, "types_ok": _types_ok(r)}
+                except Exception as e:  # noqa: BLE001
+                    return {"kind": "exc", "exc": type(e).__name__, "nreads": impl.reads_by_thread[ident], "slept": 0}
+            ths = []
+            for t in part:
+                box = []
+                boxes[t] = box
+                th = threading.Thread(target=lambda t=t, box=box: box.append(impl.worker(t - 1).call(lambda: work(t))))
+                th.start()
+                ths.append(th)
+            for th in ths:
+                th.join(90)
+            for t in part:
+                ops.append({"op": "call", "vlen": vlen, "tck": impl.tck, "fn": fn, "tid": t, "interval": None,
+                            "percpu": percpu, "reads": [data.hex(), data.hex()]})
+                results.append(boxes[t][0] if boxes[t] else {"kind": "harness-timeout"})
+        h = {"kind": "hist", "family": "concurrent", "vlen": vlen, "ops": ops, "concurrent": True}
+        run_histories(ctx, impl, res, [h], cmp, impl_results=results)
+        res.case(h, nontrivial=True)
+        res.count("feature:fam:concurrent")
+        done += 1
+    return done
 
 
 def history_features(h, tck):
@@ -823,6 +899,8 @@ def compare_pcall(res, cmp, hist, idx, op, im, m, ncpu_changed, dt):
     if not im["types_ok"]:
         return dis(kind, "result is not a float")
     x = im["val"]
+    if math.isnan(x) or math.isinf(x) or not one_decimal(x):
+        return dis(kind, "value %r is not a number rounded to one decimal" % x)
     if ncpu_changed:
         res.count("pentry:ncpu_changed(model only)")
         q = frac(mo["val"])
@@ -964,7 +1042,7 @@ def correspond(ctx, res):
             res.count("fields:%d" % len(got))
         res.exhaustive = "scputimes field set for every first-line width 0..12 (all branches of set_scputimes_ntuple); the other families are samples"
         # ---- (a) worlds
-        nw = ctx.n(150, 6000)
+        nw = ctx.n(400, 8000)
         lines, tags = [], []
         for i in range(nw):
             fam = ["plain", "plain", "many_cpus", "fewer_cols", "malformed"][i % 5]
@@ -986,7 +1064,7 @@ def correspond(ctx, res):
         total_lines += len(lines)
         # ---- (b) call histories: corpus (L9 witness) first
         hists = [l9_witness(impl.tck)]
-        nh = ctx.n(260, 12000)
+        nh = ctx.n(700, 20000)
         for i in range(nh):
             hists.append(gen_call_history(ctx.rng, impl, CALL_FAMILIES[i % len(CALL_FAMILIES)]))
         hists.sort(key=lambda h: h["vlen"])
@@ -1005,8 +1083,9 @@ def correspond(ctx, res):
                          sample={"family": h["family"], "vlen": h["vlen"], "n_ops": len(h["ops"]),
                                  "first_op": {k: v for k, v in h["ops"][0].items() if k != "reads"}}
                          if len(res.samples) < 5 and h["family"] in ("subsecond", "threads", "corpus-L9") else None)
+        res.extra["concurrent_runs"] = concurrent_runs(ctx, impl, res, cmp, ctx.n(12, 300))
         # ---- (c) Process.cpu_percent histories
-        np_ = ctx.n(150, 6000)
+        np_ = ctx.n(400, 10000)
         phists = [gen_proc_history(ctx.rng, impl, PROC_FAMILIES[i % len(PROC_FAMILIES)]) for i in range(np_)]
         for a in range(0, len(phists), 1000):
             chunk = phists[a:a + 1000]
